@@ -543,11 +543,13 @@ func finishCheck(opts CheckOpts, CS *ContractSet, reports []*FuncReport, assumed
 	_ = os.MkdirAll(filepath.Join(outRoot, "evidence"), 0o755)
 	_ = os.WriteFile(filepath.Join(outRoot, "evidence", opts.Prop+".json"), b, 0o644)
 	fmt.Printf("property %s: %d obligations, %d discharged, %d known-finding, %d violations, %.1fs\n", opts.Prop, total, discharged, len(knownSeenObls(reports, findings, opts.Prop)), violations, wall)
-	if toolErr {
-		return 2
-	}
+	// a decided violation is reported as such even when other obligations of the run could not be posed
+	// (TOOL-ERROR lines are printed too); tool errors alone are exit 2: the check itself is broken
 	if violations > 0 {
 		return 1
+	}
+	if toolErr {
+		return 2
 	}
 	return 0
 }
